@@ -204,6 +204,9 @@ func runC17(c *Ctx) {
 	ruleThresholds(c, p, "C17.thresholds")
 	ruleFreshTargets(c, p, "C17.fresh")
 	ruleScratchAlias(c, p, "C17.scratch")
+	ruleLimitSiblings(c, p, "C17.limits")
+	ruleReadFull(c, p, "C17.readfull")
+	ruleEnsureExact(c, p, "C17.ensure")
 
 	// ---- C17.fieldorder
 	rule = "C17.fieldorder"
@@ -528,6 +531,10 @@ func rulePrims(c *Ctx, p *core.Program) {
 		}
 		for _, call := range core.Calls(puv) {
 			if f := core.CalleeFunc(call); f != nil && core.IsMethod(f, core.PkgProto, "Buffer", f.Name()) {
+				// a plain appender of its argument (PutRaw) handed the PutUvarint slice is the same append
+				if g := core.StaticFn(call); g != nil && isPlainAppender(g) && len(call.Common().Args) == 2 && isUvarintSlice(call.Common().Args[1]) {
+					continue
+				}
 				extra = true
 			}
 		}
@@ -1047,4 +1054,205 @@ func ruleLossyDecode(c *Ctx, p *core.Program, pairs []msgPair, rule string) {
 		}
 	}
 	c.R.Count("masks of wire values in message decoders", n)
+}
+
+// ---- C17.limits: sibling agreement of row-count limits
+// limitsOfParam: constant upper bounds a validator applies to its i-th parameter
+// (directly, against another parameter that is constant at the call, or through
+// a callee), given the call's arguments.
+func limitsOfParam(g *ssa.Function, i int, args []ssa.Value, depth int) []int64 {
+	if g == nil || g.Blocks == nil || i >= len(g.Params) || depth > 3 {
+		return nil
+	}
+	var out []int64
+	argConst := func(v ssa.Value) (int64, bool) {
+		if k, ok := core.ConstInt(stripConv(v)); ok {
+			return k, true
+		}
+		if pr, ok := stripConv(v).(*ssa.Parameter); ok {
+			for j, q := range g.Params {
+				if q == pr && j < len(args) {
+					return core.ConstInt(stripConv(args[j]))
+				}
+			}
+		}
+		return 0, false
+	}
+	isP := func(v ssa.Value) bool { return stripConv(v) == ssa.Value(g.Params[i]) }
+	for _, b := range g.Blocks {
+		for _, in := range b.Instrs {
+			switch x := in.(type) {
+			case *ssa.If:
+				bo, ok := x.Cond.(*ssa.BinOp)
+				if !ok {
+					continue
+				}
+				switch {
+				case (bo.Op == token.GTR || bo.Op == token.GEQ) && isP(bo.X):
+					if k, ok := argConst(bo.Y); ok {
+						out = append(out, k)
+					}
+				case (bo.Op == token.LSS || bo.Op == token.LEQ) && isP(bo.Y):
+					if k, ok := argConst(bo.X); ok {
+						out = append(out, k)
+					}
+				}
+			case *ssa.Call:
+				h := core.StaticFn(x)
+				if h == nil || pkgOf(h) == nil || pkgOf(h).Path() != core.PkgProto {
+					continue
+				}
+				for k, a := range x.Call.Args {
+					if isP(a) {
+						// substitute what is known about g's parameters into the inner call
+						sub := make([]ssa.Value, len(x.Call.Args))
+						for m, aa := range x.Call.Args {
+							sub[m] = aa
+							if pr, ok := stripConv(aa).(*ssa.Parameter); ok {
+								for j, q := range g.Params {
+									if q == pr && j < len(args) {
+										sub[m] = args[j]
+									}
+								}
+							}
+						}
+						out = append(out, limitsOfParam(h, k, sub, depth+1)...)
+					}
+				}
+			}
+		}
+	}
+	return out
+}
+
+// upperLimits: constant upper bounds under which v is accepted on the way to `at` in fn.
+func upperLimits(fn *ssa.Function, v ssa.Value, at ssa.Instruction) []int64 {
+	same := func(x ssa.Value) bool { return stripConv(x) == stripConv(v) }
+	var out []int64
+	for _, b := range fn.Blocks {
+		for _, in := range b.Instrs {
+			switch x := in.(type) {
+			case *ssa.If:
+				bo, ok := x.Cond.(*ssa.BinOp)
+				if !ok {
+					continue
+				}
+				if (bo.Op == token.GTR || bo.Op == token.GEQ) && same(bo.X) {
+					if k, ok := core.ConstInt(bo.Y); ok && b.Dominates(at.Block()) {
+						out = append(out, k)
+					}
+				}
+			case *ssa.Call:
+				g := core.StaticFn(x)
+				if g == nil || pkgOf(g) == nil || pkgOf(g).Path() != core.PkgProto || !x.Block().Dominates(at.Block()) {
+					continue
+				}
+				if _, hasErr := core.ReturnsError(g.Signature); !hasErr {
+					continue
+				}
+				for i, a := range x.Call.Args {
+					if same(a) {
+						out = append(out, limitsOfParam(g, i, x.Call.Args, 0)...)
+					}
+				}
+			}
+		}
+	}
+	return out
+}
+
+func ruleLimitSiblings(c *Ctx, p *core.Program, rule string) {
+	c.R.Rule(rule, "sibling validators agree on what a row count may be: the constant upper bound under which DecodeRawBlock accepts a block's row count is not lower than the bound under which the column decoders accept a nested row count (the argument they hand to an inner DecodeColumn) - the same quantity, a column's row count, is otherwise accepted inside an Array but rejected at the top level, so a block the encoder emits and a nested decoder would take is refused on decode")
+	cfg := p.Cfg.Name
+	rb := p.Method(core.PkgProto, "Block", "DecodeRawBlock")
+	if !c.must(p, "Block.DecodeRawBlock", rb != nil) {
+		return
+	}
+	var blockLim []int64
+	var at ssa.Instruction
+	for _, b := range rb.Blocks {
+		for _, in := range b.Instrs {
+			s, ok := in.(*ssa.Store)
+			if !ok {
+				continue
+			}
+			fa, ok := s.Addr.(*ssa.FieldAddr)
+			if !ok || !core.IsNamed(fa.X.Type(), core.PkgProto, "Block") || fieldNameOnly(fa.X.Type(), fa.Field) != "Rows" {
+				continue
+			}
+			at = s
+			blockLim = append(blockLim, upperLimits(rb, s.Val, s)...)
+		}
+	}
+	var nested []int64
+	nSites := 0
+	for _, fn := range p.Funcs() {
+		if pkgOf(fn) == nil || pkgOf(fn).Path() != core.PkgProto || fn == rb {
+			continue
+		}
+		for _, call := range core.FindCalls(fn, isColMethod("DecodeColumn")) {
+			args := call.Common().Args
+			rows := args[len(args)-1]
+			if _, isParam := stripConv(rows).(*ssa.Parameter); isParam {
+				continue
+			}
+			l := upperLimits(fn, rows, call.(ssa.Instruction))
+			if len(l) > 0 {
+				nSites++
+				nested = append(nested, l...)
+			}
+		}
+	}
+	if at == nil || len(blockLim) == 0 || len(nested) == 0 {
+		c.R.Unk(rule, "Block.Rows", cfg, p.Pos(rb.Pos()), sprintf("limits not resolved (block %v, nested %v)", blockLim, nested))
+		return
+	}
+	minB, maxN := blockLim[0], nested[0]
+	for _, k := range blockLim {
+		if k < minB {
+			minB = k
+		}
+	}
+	for _, k := range nested {
+		if k > maxN {
+			maxN = k
+		}
+	}
+	if minB >= maxN {
+		c.R.Ok(rule, "Block.Rows", cfg, p.Pos(at.Pos()), sprintf("block rows accepted up to %d, nested counts up to %d (%d sites)", minB, maxN, nSites))
+	} else {
+		c.R.Bad(rule, "Block.Rows", cfg, p.Pos(at.Pos()), sprintf("a block's row count is accepted only up to %d while nested row counts are accepted up to %d: a block the encoder writes (and whose size every nested decoder accepts) is rejected by the block header check", minB, maxN))
+	}
+}
+
+// isPlainAppender: a Buffer method whose only effect is Buf = append(Buf, param...).
+func isPlainAppender(g *ssa.Function) bool {
+	if g.Blocks == nil || len(g.Params) != 2 {
+		return false
+	}
+	n := 0
+	for _, b := range g.Blocks {
+		for _, in := range b.Instrs {
+			switch x := in.(type) {
+			case *ssa.Store:
+				if !isBufAddr(x.Addr) {
+					return false
+				}
+				ap, ok := x.Val.(*ssa.Call)
+				if !ok {
+					return false
+				}
+				bi, ok := ap.Call.Value.(*ssa.Builtin)
+				if !ok || bi.Name() != "append" || len(ap.Call.Args) != 2 || ap.Call.Args[1] != ssa.Value(g.Params[1]) {
+					return false
+				}
+				n++
+			case *ssa.Call:
+				if _, ok := x.Call.Value.(*ssa.Builtin); !ok {
+					return false
+				}
+			}
+		}
+	}
+	return n == 1
 }
